@@ -9,7 +9,7 @@ map:    see the second half of this file."""
 import os, random
 from vf.cspec import *
 from vf import csmt, core
-from vf.vecmap import lims, split_vec, by_len, vec_input, EarlyZeroEnc, use_encoder
+from vf.vecmap import lims, split_vec, by_len, vec_input, EarlyZeroEnc, use_encoder, honest_wrong_pass
 
 P = csmt.P_BLS
 
@@ -178,23 +178,6 @@ def vector_family(tier, seed):
     return E
 
 
-def check(run):
-    from vf import cengine
-    t = core.tier()
-    only = getattr(run, "only", None)
-    ents = vector_family(t, core.seed())
-    run.assumptions += [
-        "vector: every AssignedVector is created by the real VectorGadget::assign (the operations are decided under the type invariant that assign enforces); A divides M (the documented layout has no solution otherwise)",
-        "vector specifications (/verif/specs/parts/C04_V.py) speak about the payload only: filler cells are documented as unconstrained",
-    ]
-    run.bounds.append(f"vector: tier={t}: {len(ents)} (operation, M, A, parameter) shapes, M in {{4, 8}}, A | M, T = AssignedNative (AssignedByte for assign / is_equal), k=10")
-    ments = map_family(t, core.seed())
-    with use_encoder(EarlyZeroEnc):
-        if not os.environ.get("VERIF_V_SKIP_VECTOR"):
-            cengine.run_family(run, "vector", ents, timeout=60 if t == "quick" else 600, only=only)
-        cengine.run_family(run, "map", ments, timeout=120 if t == "quick" else 600, only=only, workers=5)
-
-
 # =================================================================================================== map
 # MapGadget (circuits/src/map/{map_gadget.rs,cpu.rs}, instructions/map.rs): key-value map committed to by the root
 # of a Merkle tree of height 128; the leaf of `key` sits at index = the low 128 bits (little endian) of hash(key, 0);
@@ -206,19 +189,21 @@ def check(run):
 #
 # Hash abstraction: the hash chip is recorded, call j = ((a_j, b_j), o_j); o_j = Hf(a_j, b_j) for ONE uninterpreted Hf.
 # MapSpec under the abstraction, for one authentication of (key, leaf) under root:
-#     exists b in {0,1}^255, s_0..s_127:  b = canonical bits of Hf(key, 0);  n_0 = leaf;
+#     exists b in {0,1}^255, s_0..s_127:  b = binary digits of the integer Hf(key, 0) in [0, p);  n_0 = leaf;
 #        n_{i+1} = Hf(s_i, n_i) if b_i = 1 else Hf(n_i, s_i);  n_128 = root.
 # Decided in WITNESS FORM over the recorded calls (quantifier free): call c_0 has inputs (key, 0); the system's own
-# binary digits of o(c_0) are a canonical decomposition (vecmap.canonical_bits); for every level i the input of
-# call c_{i+1} on the side selected by b_i is n_i (n_0 = leaf, n_i = o(c_i)); o(c_128) = root. The siblings are the
-# inputs on the other side. Witness form => MapSpec by instantiating s_i, b (and by functionality of Hf, which is
-# what makes the index of `key` the same in every authentication; uniqueness of canonical binary representations is
-# integer arithmetic).
+# binary digits of o(c_0) are its binary representation over the integers (vecmap.canonical_bits); for every level i
+# the input of call c_{i+1} on the side selected by b_i is n_i (n_0 = leaf, n_i = o(c_i)); o(c_128) = root. The
+# siblings are the inputs on the other side. Witness form => MapSpec by instantiating s_i, b (and by functionality
+# of Hf, which is what makes the index of `key` the same in every authentication; uniqueness of binary
+# representations is integer arithmetic).
 from vf.vecmap import HashCalls, canonical_bits, prove_then_assume, TREE_HEIGHT
+
+AUX_LEMMAS = ("index-sum-mod-p", "index-lsb-is-parity")      # tried and used when proved; not part of the specification
 
 
 def _auth(e, tag, c0, chain, key, leaf, root):
-    """([(name, SMT Bool)], sibling terms) for one authentication; leaf None = existentially quantified."""
+    """([(name, SMT Bool, ...)], sibling terms) for one authentication; leaf None = existentially quantified."""
     (a, b), idx = c0
     assert len(chain) == TREE_HEIGHT
     bits, canon = canonical_bits(e, idx)
@@ -228,9 +213,10 @@ def _auth(e, tag, c0, chain, key, leaf, root):
             lv.append(f"(ite (= {A(bits[i])} 1) {eq(r, node)} {eq(l, node)})")
         sibs.append(ITE(eq(bits[i], 1), l, r))
         node = out
-    parts = [(f"{tag}:index-call", AND(eq(a, key), eq(b, 0))),
-             (f"{tag}:index-bits", canon[0], False), (f"{tag}:index-sum", canon[1]),
-             (f"{tag}:path-levels", AND(*lv)), (f"{tag}:path-root", eq(node, root))]
+    parts = [(f"{tag}:index-call", AND(eq(a, key), eq(b, 0)))]
+    parts += [(f"{tag}:index-{st[0]}",) + tuple(st[1:]) for st in canon]
+    # the level facts are local to the two cond_swap rows of each level: proved from a slice of the system
+    parts += [(f"{tag}:path-levels", AND(*lv), True, (2, 8)), (f"{tag}:path-root", eq(node, root))]
     return parts, sibs
 
 
@@ -251,16 +237,16 @@ def S_map(op):
             root, key, value = I[:3]
             p1, s1 = _auth(e, "old", *A_(0), key, None, root)          # some old leaf under the old root
             p2, s2 = _auth(e, "new", *A_(1), key, value, real[0])      # the new value under the new root
-            parts = p1 + p2 + [("same-siblings", AND(*[eq(x, y) for x, y in zip(s1, s2)]))]
+            parts = p1 + p2 + [("same-siblings", AND(*[eq(x, y) for x, y in zip(s1, s2)]), True, (2, 8))]
             if op == "insert_get":
                 p3, _ = _auth(e, "get", *A_(2), I[3], real[1], real[0])    # get(key2) against the NEW root
                 parts += p3
         # every conjunct is first tried on its own (sound cut, see vecmap.prove_then_assume); the specification
-        # returned to the deciding query is always the full conjunction
+        # returned to the deciding query is always the full conjunction (auxiliary lemmas excluded)
         if not getattr(e, "_pta_done", False) and hasattr(e, "s"):
             e._pta_done = True
             prove_then_assume(e, parts, timeout=60)
-        return AND(*[p[1] for p in parts])
+        return AND(*[p[1] for p in parts if not p[0].endswith(AUX_LEMMAS)])
     return spec
 
 
@@ -287,3 +273,36 @@ def map_family(tier, seed):
             E.append(mentry("insert_get", mode, [k3, v3, k3], pre, alt=[[k3, v3, k1], [k3, v3, absent], [k1, vn, k1]], k=kk[2],
                             what="insert then get: the get is checked against the root produced by the insert (state threading)"))
     return E
+
+
+def check(run):
+    from vf import cengine, vecmap
+    t = core.tier()
+    only = getattr(run, "only", None)
+    ents = vector_family(t, core.seed())
+    ments = map_family(t, core.seed())
+    run.assumptions += [
+        "vector: every AssignedVector is created by the real VectorGadget::assign (the operations are decided under the type invariant that assign enforces); A divides M (the documented layout - front padding 0 mod A, back padding in [0, A), sum M - has no solution otherwise; the repository's own tests also use A not dividing M, where a vector of length M cannot be assigned: get_lims underflows)",
+        "vector specifications (/verif/specs/parts/C04_V.py) speak about the payload only: filler cells are documented as unconstrained",
+        "map: the hash is ABSTRACTED. Every call hash([a, b]) -> o of the hash chip handed to the real MapGadget is recorded (cells a, b, o exposed on the instance column) and o = Hf(a, b) for one uninterpreted Hf is all that is assumed about it; that the real PoseidonChip makes o the Poseidon digest of (a, b) is property C07 (poseidon/hash[n=2])",
+        "map, hash=poseidon: the extracted system is the one the real MapGadget + NativeGadget + PoseidonChip emit; the rows that live entirely in the PoseidonChip's own advice columns (its permutation rows and the rows of its private NativeChip) are cut out and replaced by o = Hf(a, b); hash=uf: the same MapGadget/NativeGadget code is instantiated (through MapGadget's own type parameter H) with a hash chip whose digest is an unconstrained advice cell",
+        "map: the decided statement is the WITNESS FORM over the recorded calls (see the comment block above S_map): per authentication, call c_0 hashes (key, 0); the system's own binary digits b of its output x satisfy b_i in {0,1} and sum b_i 2^i = x over the integers; at level i the input of call c_(i+1) on the side selected by b_i is the running node; the last output is the root; insert additionally: the siblings of the two authentications coincide. Witness form => 'exists path' form by instantiation; that two authentications of one key use the same index is functionality of Hf plus uniqueness of binary representations",
+        "map: collision resistance of the hash (what makes the root a commitment to the map) is outside; the tree height 128 is the only one the API offers",
+        "lemma chain (vecmap.prove_then_assume): conjuncts of a specification are proved one at a time from the system (some from a syntactic slice of it) and then used as facts; each step is an unsat answer for `hypotheses and not conjunct` with hypotheses a subset of the system plus earlier proved conjuncts",
+    ]
+    run.outside += [
+        "vector: M outside {4, 8}, A not dividing M, element types other than AssignedNative / AssignedByte, AssignedVector::value (off-circuit)",
+        "map: completeness beyond the listed honest runs (present / absent / boundary keys, empty map); hash=poseidon obligations cannot turn a solver counterexample into a replay (the model's digests are not Poseidon digests): under a defect they report INCONCLUSIVE and the hash=uf twin reports the VIOLATION",
+    ]
+    run.bounds.append(f"vector: tier={t}: {len(ents)} (operation, M, A, parameter) shapes, M in {{4, 8}}, A | M, T = AssignedNative (AssignedByte for assign / is_equal), k=10")
+    run.bounds.append(f"map: tier={t}: {len(ments)} shapes: get / insert / insert-then-get x hash in {{uf, poseidon}}, tree height 128 (129 hash calls per authentication), k=11..15")
+    run.notes.append("Engine C, families vector/map: csmt.Enc subclass vecmap.EarlyZeroEnc (is-zero lemma before range inference; rows whose products share a Boolean factor as an exact case split; no pairwise congruence/associativity lemma instances; inverse-hint cells re-solved in counterexample models before the exact re-check).")
+    with use_encoder(EarlyZeroEnc):
+        if not os.environ.get("VERIF_V_SKIP_VECTOR"):
+            cengine.run_family(run, "vector", ents, timeout=60 if t == "quick" else 600, only=only)
+            honest_wrong_pass(run, "vector", ents)
+        if not os.environ.get("VERIF_V_SKIP_MAP"):
+            cengine.run_family(run, "map", ments, timeout=120 if t == "quick" else 600, only=only, workers=5)
+            honest_wrong_pass(run, "map", ments)
+    st = vecmap.STATS
+    run.translator_validation.append(f"vector/map: per obligation the honest assignment of the real run satisfies the encoded system and the specification (vacuity twin) and the exact re-evaluation of every extracted row; map lemma chain: {st['lemma_queries']} lemma queries, {st['lemma_proved']} proved, {st['solver_s']:.1f} s (not counted in the per-obligation query numbers)")
